@@ -1,7 +1,8 @@
 (** C05 — proofs about the record-level transforms and the monoid fold. *)
 From Coq Require Import String Ascii.
 From Coq Require Import List Arith NArith ZArith Bool Lia Permutation.
-From OBI.C05 Require Import Records.
+From OBI.Common Require Import Reseq.
+From OBI.C05 Require Import Model Proofs Records.
 Import ListNotations.
 
 Section FoldProofs.
@@ -210,3 +211,19 @@ Proof.
 Qed.
 Lemma revcomp_length r : length (rseq (revcomp_rec r)) = length (rseq r).
 Proof. rewrite revcomp_loop_spec. unfold revcomp_spec. cbn. now rewrite rev_length, map_length. Qed.
+
+(** the statements of Props.v *)
+Lemma cmd_any_config (c : cmd) (l : list rec) (P : list (list rec)) (arr : list (nat * list rec)) :
+  concat P = l -> Permutation arr (numbered (map (on_batch rec rec (cmd_f c)) P)) ->
+  pipeline_out rec arr = flat_map (cmd_f c) l.
+Proof. exact (pipeline_any_config rec rec (cmd_f c) l P arr). Qed.
+
+Lemma csv_any_config (keys : list (list N)) (l : list rec) (P : list (list rec)) (arr : list (nat * list (list aval))) :
+  concat P = l -> Permutation arr (numbered (map (on_batch rec (list aval) (csv_f keys)) P)) ->
+  pipeline_out (list aval) arr = flat_map (csv_f keys) l.
+Proof. exact (pipeline_any_config rec (list aval) (csv_f keys) l P arr). Qed.
+
+Lemma count_any_config_values (l : list rec) (P arr : list (list rec)) :
+  concat P = l -> Permutation arr P ->
+  count_out arr = (Z.of_nat (length l), fold_right Z.add 0%Z (map rec_count l), fold_right Z.add 0%Z (map rec_len l)).
+Proof. intros HP Ha. rewrite (count_any_config l P arr HP Ha). apply count_spec_values. Qed.
